@@ -207,6 +207,13 @@ def gen_raw(rng, thorough, plate=False):
                 one.setdefault(v, [v, mu, sg])
         init = [[list(one[v]) for v, _, _ in f] for f in init]
         meta = dict(meta, fad=True)
+        if not plate:
+            # a deterministic variable: output of one factor, input of another
+            cands = [(a_, v) for a_, f in enumerate(factors) if len(f) >= 2 for v in f
+                     if sum(1 for g_ in factors if v in g_) >= 2]
+            if cands and rng.random() < 0.6:
+                a_, v_ = rng.choice(cands)
+                meta["det"] = {"factor": a_, "var": v_}
     sim = Sim([{v: natf(unhex(mu), unhex(sg)) for v, mu, sg in f} for f in init])
     base = sim.copy()
     steps = []
@@ -325,7 +332,7 @@ def gen_par(rng, thorough):
             scripts[i].append({"t": "fit", "success": True, "token": 100 * i + len(scripts[i]),
                                "new": [[v, hx(mu), hx(sg)] for v, (mu, sg) in new.items()]})
             sim.project(i, delta, cav, last, {v: natf(mu, sg) for v, (mu, sg) in new.items()})
-    stop = [rng.choice(order), rng.randint(1, max_steps)] if rng.random() < 0.3 else None
+    stop = [rng.choice(order), rng.randint(1, max_steps)] if rng.random() < 0.5 else None
     return {"kind": "par", "factors": factors, "init": init, "parallel": parallel, "order": order,
             "max_steps": max_steps, "delta": dj, "scripts": scripts, "stop": stop}
 
@@ -514,6 +521,22 @@ def gen_decl(rng, thorough):
         elif rng.random() < 0.5:
             dj = {"t": "dynamic", "d0": hx(rng.choice([1.0, 0.5, 0.25]))}
     max_steps = rng.choice([0, 1, 2, 2, 3, 3, 4 if thorough else 3])
+    # the default EPHistory (kl_tol = 0.1): the run ends when a factor's last two updated approximations are close
+    kl_mode = rng.random() < 0.25
+    repeat = False
+    plan = []
+    if kl_mode:
+        max_steps = rng.choice([2, 3, 4])
+        if rng.random() < 0.75:
+            # one factor visited again and again; the optimiser's answers follow a pattern (letter = distribution,
+            # sign = Status.success) chosen so that "last two UPDATED" and "last two SUCCESSFUL" approximations differ
+            mode = "epopt"
+            order = [rng.randrange(ng)]
+            dj = {"t": "scalar", "d": hx(1.0)}
+            repeat = True
+            plan = list(rng.choice([["A+", "A+"], ["A+", "B-", "B+"], ["A+", "B+", "B+"], ["A-", "A+", "A+"],
+                                    ["A+", "B-", "B+", "B+"], ["A+", "B-", "A+"], ["A+", "B+", "C+", "C+"]]))
+            max_steps = max(max_steps, len(plan))
     st0 = sim_init(c, occ_variant=model_flag("code_counts_occurrences"))
     sim = Sim(st0)
     scripts = [[] for _ in range(ng)]
@@ -523,21 +546,44 @@ def gen_decl(rng, thorough):
             cav, last = sim.cavity(i), dict(sim.st[i])
             delta = Fr(unhex(dj["d"])) if dj["t"] == "scalar" else sim.dynamic(unhex(dj["d0"]))
             keys = list(sim.st[i].keys())
-            if rng.random() < 0.12:
+            if rng.random() < 0.12 and not repeat:
                 scripts[i].append({"t": "raise"})
                 # new = model_dist: the projection gives back the factor's own message (delta >= 1)
                 new = {v: add(last[v], cav[v]) if v in cav else last[v] for v in keys}
                 sim.project(i, delta, cav, last, new)
                 continue
-            newd = pick_new(rng, sim, i, delta, cav, last, keys, {v: rng.random() < 0.9 for v in keys})
+            newd = None
+            prev = [oc for oc in scripts[i] if oc["t"] == "fit"]
+            step_plan = plan[len(scripts[i])] if len(scripts[i]) < len(plan) else None
+            same_as = None
+            if step_plan:
+                for j_, pl_ in enumerate(plan[:len(scripts[i])]):
+                    if pl_[0] == step_plan[0]:
+                        same_as = j_
+            if repeat and same_as is not None:
+                # the optimiser returns the same distribution again: the approximation stops moving
+                cand_ = {v: (unhex(mu), unhex(sg)) for v, mu, sg in scripts[i][same_as]["new"]}
+                ok_ = True
+                for v, (mu, sg) in cand_.items():
+                    c_, _o = sim.candidate(delta, cav, last, v, natf(mu, sg))
+                    mag_ = abs(natf(mu, sg)[1]) + (abs(cav[v][1]) if v in cav else 0) + (abs(last[v][1]) if v in last else 0)
+                    if abs(c_[1]) * 2 ** 16 < mag_:
+                        ok_ = False
+                if ok_:
+                    newd = cand_
+            if newd is None:
+                newd = pick_new(rng, sim, i, delta, cav, last, keys, {v: rng.random() < 0.9 for v in keys})
             if newd is None:
                 return None
-            scripts[i].append({"t": "fit", "success": rng.random() < 0.8, "token": 100 * i + len(scripts[i]),
+            scripts[i].append({"t": "fit", "success": (step_plan[1] == "+") if step_plan else rng.random() < 0.8,
+                               "token": 100 * i + len(scripts[i]),
                                "new": [[v, hx(mu), hx(sg)] for v, (mu, sg) in newd.items()]})
             sim.project(i, delta, cav, last, {v: natf(mu, sg) for v, (mu, sg) in newd.items()})
-    if max_steps >= 1 and rng.random() < 0.25:
+    if max_steps >= 1 and rng.random() < 0.25 and not kl_mode:
         stop = [rng.choice(order), rng.randint(1, max_steps)]
     c["run"] = {"mode": mode, "order": order, "delta": dj, "max_steps": max_steps, "stop": stop, "scripts": scripts}
+    if kl_mode:
+        c["run"]["history"] = "default"
     return c
 
 
@@ -847,6 +893,27 @@ def oracle_run(c, r, run, nf, state0, parallel, where0):
     fails = []
     order, max_steps, stop = run["order"], run["max_steps"], run.get("stop")
     log = r["log"]
+    kl_mode = run.get("history") == "default"
+    unsure = False
+
+    def kl_converged(k):
+        """default EPHistory: KL(latest updated approximation of the factor || the one before) < 0.1"""
+        nonlocal unsure
+        import math
+        i = log[k]["f"]
+        ups = [e_ for e_ in log[:k + 1] if e_["f"] == i and e_["updated"]]
+        if len(ups) < 2:
+            return False
+        a_, b_ = bmap(ups[-1]["global_ms"]), bmap(ups[-2]["global_ms"])
+        kl = 0.0
+        for v in a_:
+            m1, s1 = unhex(a_[v][0]), unhex(a_[v][1])
+            m2, s2 = unhex(b_[v][0]), unhex(b_[v][1])
+            kl += math.log(s2 / s1) + (s1 * s1 + (m1 - m2) ** 2) / 2 / (s2 * s2) - 0.5
+        if abs(kl - 0.1) < 1e-6:
+            unsure = True
+        return kl < 0.1
+
     # schedule: sweeps over `order`, stopping right after the stop entry
     exp = []
     seen_count = {}
@@ -861,8 +928,13 @@ def oracle_run(c, r, run, nf, state0, parallel, where0):
             if stop and e["f"] == stop[0] and e["success"] and seen_count[i] == stop[1]:
                 stopped = True
                 break
+            if kl_mode and e["f"] == i and e["success"] and kl_converged(len(exp) - 1):
+                stopped = True
+                break
         if stopped:
             break
+    if unsure:
+        return fails
     full = len(order) * max_steps
     if [e["f"] for e in log] != exp or (not stopped and len(log) != full):
         fails.append(("%s: factors were visited in order %s, expected sweeps over %s" % (where0, [e["f"] for e in log][:20], order), []))
@@ -1307,7 +1379,12 @@ def coq_decl(c, r):
     nm = r["n_model_factors"]
     grp = [list(range(nm))] + groups + [[i] for i in singles]
     ogroups = clist(["None" if g_ is None else "(Some %s)" % clist([c_optZ(t) for t in g_]) for g_ in r["groups"]])
-    stop = "None" if not run.get("stop") else "(Some (%s, %s))" % (cnat(run["stop"][0]), cnat(run["stop"][1]))
+    stop_ = run.get("stop")
+    if run.get("history") == "default" and r["log"] and len(r["log"]) < run["max_steps"] * len(run_order(c, r)):
+        # the model replays the KL termination as "stop at this entry"; WHETHER it is the right entry is the oracle's job
+        lf = r["log"][-1]["f"]
+        stop_ = [lf, sum(1 for e in r["log"] if e["f"] == lf)]
+    stop = "None" if not stop_ else "(Some (%s, %s))" % (cnat(stop_[0]), cnat(stop_[1]))
     pf = [f[0] for f in gf[len(fs):]]
     return "CDecl %s %s %s %s %s %s %s %s %s %s %s %s %s %s %s %s" % (
         priors, clist([clist([cnat(v) for v in f]) for f in fs]), cbool(include), clist([cnat(v) for v in pf]),
@@ -1372,7 +1449,9 @@ def run(ctx):
                 "state and a scripted sequence of 1-12 factor updates (scalar / per-variable / DynamicUpdater damping, valid and "
                 "invalid projections, stale approximations, and IN-PLACE write-backs on one EPMeanField object -- update_factor_mean_field, "
                 "approx[index] = subset, update -- interleaved with reads of mean_field / model_dist / factor_approximation on that same "
-                "object, also over plated array messages, run on flattened plate elements); (par) the same driven by EPOptimiser.run / ParallelEPOptimiser.run with "
+                "object, also over plated array messages, run on flattened plate elements; older approximations are kept and re-read after every step); (subset) the stochastic path with the real objects: "
+                "EPMeanField.subset on a batch, EPMeanFieldSubset.factor_approximation (rescaled split) and project_mean_field, write-back by "
+                "update / setitem / merge; (par) the same driven by EPOptimiser.run / ParallelEPOptimiser.run with "
                 "scripted factor optimisers; (decl) a FactorGraphModel of analysis / hierarchical / prior factors with shared priors, "
                 "its initial state, then EPOptimiser.run or .optimise with scripted optimisers (failures, exceptions, early stop) and "
                 "the history / EPResult accessors. A case is non-trivial when at least two factors share a variable (or a "
@@ -1380,8 +1459,9 @@ def run(ctx):
     ctx.trusted = [
         "Coq 8.16.1 kernel incl. vm_compute",
         "correspondence harness c18.py / impl/c18_impl.py; Python float.hex and fractions.Fraction (binary64 -> exact rational)",
-        "comparison of natural parameters is a LABELLED TOLERANCE comparison: |model - observed| <= 2^-36 * (1 + sum of magnitudes that "
-        "entered the computation); the model computes in exact rationals, the code in binary64 through (mean, sigma)",
+        "comparison of natural parameters is a LABELLED TOLERANCE comparison, PER VARIABLE: |model - observed| <= 2^-36 * (1 + magnitudes of "
+        "the messages of that variable that entered the computation so far); the oracle uses 1e-9 of the variable's high-water "
+        "magnitude; the model computes in exact rationals, the code in binary64 through (mean, sigma)",
         "modelled not verified: NormalMessage arithmetic itself (C17), Prior/Model composition (prior_model.priors is observed and "
         "compared), numpy, logging, output files; the process pool of ParallelEPOptimiser is replaced by a serial starmap",
     ]
@@ -1432,6 +1512,11 @@ def run(ctx):
                 ctx.hist("delta", s_["delta"]["t"] + ("=" + str(unhex(s_["delta"]["d"])) if s_["delta"]["t"] == "scalar" else ""))
             if c["kind"] == "par":
                 ctx.hist("delta", c["delta"]["t"])
+        if "ok" in r and c["kind"] == "decl" and c["run"].get("history") == "default":
+            ctx.hist("kl_termination", "converged-early" if len(r["ok"]["log"]) < c["run"]["max_steps"] * len(run_order(c, r["ok"]))
+                     else "ran-to-max-steps")
+        if "ok" in r and c["kind"] == "par" and c.get("stop"):
+            ctx.hist("par_stop", "parallel" if c["parallel"] else "sequential")
         if "ok" in r and c["kind"] == "raw":
             for o_ in r["ok"]["steps"]:
                 ctx.hist("projection", "proper" if o_["success"] else "improper-or-failed")
@@ -1454,7 +1539,11 @@ def run(ctx):
             oracle_failed.add(i)
             ctx.failure("oracle", "expected the known crash %s but the call went through" % subset_crash_class(c)[0], c)
             continue
-        fails = {"raw": oracle_raw, "par": oracle_par, "decl": oracle_decl, "subset": oracle_subset}[c["kind"]](c, o)
+        try:
+            fails = {"raw": oracle_raw, "par": oracle_par, "decl": oracle_decl, "subset": oracle_subset}[c["kind"]](c, o)
+        except (KeyError, IndexError, TypeError, ValueError) as e_:
+            # observables that do not even have the shape the case implies (e.g. a factor lost a variable)
+            fails = [("observables do not fit the case: %s: %s" % (type(e_).__name__, str(e_)[:200]), [])]
         if fails:
             ctx.oracle["failures"] += 1
             oracle_failed.add(i)
